@@ -275,9 +275,46 @@ impl PartialOrd for NumberValue {
 
 impl Ord for NumberValue {
     fn cmp(&self, other: &Self) -> Ordering {
-        let me: f64 = self.into();
-        let other: f64 = other.into();
-        me.total_cmp(&other)
+        match (self, other) {
+            (NumberValue::Float(me), NumberValue::Float(other)) => me.total_cmp(other),
+            (NumberValue::Float(me), other) => cmp_integer_to_float(other.as_integer(), *me).reverse(),
+            (me, NumberValue::Float(other)) => cmp_integer_to_float(me.as_integer(), *other),
+            // Two integers are compared as integers, a detour through f64 can not tell numbers above 2^53 apart.
+            (me, other) => me.as_integer().cmp(&other.as_integer()),
+        }
+    }
+}
+
+impl NumberValue {
+    fn as_integer(&self) -> i128 {
+        match *self {
+            NumberValue::Negative(i) => i as i128,
+            NumberValue::Positive(i) => i as i128,
+            NumberValue::Float(f) => f as i128,
+        }
+    }
+}
+
+fn cmp_integer_to_float(integer: i128, float: f64) -> Ordering {
+    if float.is_nan() {
+        // The same place total_cmp gives to NaN.
+        return if float.is_sign_negative() {
+            Ordering::Greater
+        } else {
+            Ordering::Less
+        };
+    }
+    // Every integer we can hold is between i64::MIN and u64::MAX, a float that big has no fraction.
+    if float >= 1e30 {
+        return Ordering::Less;
+    }
+    if float <= -1e30 {
+        return Ordering::Greater;
+    }
+    let whole = float.trunc();
+    match integer.cmp(&(whole as i128)) {
+        Ordering::Equal => 0.0_f64.total_cmp(&(float - whole)),
+        different => different,
     }
 }
 
